@@ -452,7 +452,9 @@ pub fn random_doc(rng: &mut Rng, s: &ASchema, k: &OpKnobs) -> ADoc {
             1 if s.subscription.is_some() => "subscription",
             _ => "query",
         };
-        if let Some(op) = g.operation(rng, kind, names[i]) {
+        // the first operation's name is sometimes one that Rust normalization changes
+        let name = if i == 0 { *rng.pick(&["MyQuery", "MyQuery", "recentPages", "fetch_All"]) } else { names[i] };
+        if let Some(op) = g.operation(rng, kind, name) {
             ops.push(op);
         }
     }
@@ -935,6 +937,15 @@ impl<'a> PayloadGen<'a> {
                 if self.s.is_composite(n) {
                     let rt = v.get("__typename").and_then(|t| t.as_str()).map(|s| s.to_string()).unwrap_or_else(|| n.clone());
                     let rt = if self.s.is_abstract(n) { rt } else { n.clone() };
+                    if !self.s.is_abstract(n) {
+                        // an ARRAY where an object is required: one `null` per selected field (serde's derived
+                        // structs also implement `visit_seq`)
+                        let mut fields = Vec::new();
+                        self.collect(&rt, sub, &mut fields, 0);
+                        let defs = self.s.fields_of(&rt);
+                        let k = fields.iter().filter(|(_, f, _)| f != "__typename" && !(self.deny_deprecated && defs.iter().any(|d| &d.name == f && d.dep.is_some()))).count();
+                        out.push(Corruption { kind: "object-as-array", path: ptr.into(), payload: replace_at(whole, ptr, Some(Value::Array(vec![Value::Null; k]))), must_accept: Some(false), expect_typename: None });
+                    }
                     self.corrupt_object(whole, n, &rt, sub, v, ptr, other, out);
                 }
             }
